@@ -1,3 +1,4 @@
+mod appsim;
 mod boardsim;
 mod checks;
 mod common;
